@@ -293,12 +293,13 @@ type TxSpec struct {
 	ThreeElems  bool // Dijkstra: [body, wits, aux] envelope
 	ExtraSigner []int
 	// phase-2 machinery (Alonzo+)
-	Invalid    bool   // IsValid=false in the 4-element envelope
-	Rdms       []Rdm  // redeemers (witness key 5)
-	RdmMap     bool   // Conway+: map form {[tag, ix] => [data, exunits]}
+	Invalid    bool  // IsValid=false in the 4-element envelope
+	Rdms       []Rdm // redeemers (witness key 5)
+	RdmMap     bool  // Conway+: map form {[tag, ix] => [data, exunits]}
 	Plutus     []PScript
 	CostModels map[uint][]int64 // the parameters' cost models (for the script data hash)
 	NoSDH      bool             // omit the script data hash although redeemers exist
+	Style      *Styler
 	// WdrlScript: withdrawals from native-script reward accounts (script = sig of key)
 	WdrlScript []Wd
 }
@@ -436,7 +437,11 @@ func (tx *TxSpec) BodyNode() (*xcbor.Node, []byte) {
 	}
 	var aux []byte
 	if tx.MetaLabel != nil {
-		aux = xcbor.M(xcbor.U(*tx.MetaLabel), xcbor.U(1)).Encode()
+		an := xcbor.M(xcbor.U(*tx.MetaLabel), xcbor.U(1))
+		if tx.Style != nil && tx.Style.Aux != nil {
+			tx.Style.Aux(an)
+		}
+		aux = an.Encode()
 		h := hash256(aux)
 		add(7, xcbor.B(h[:]))
 	}
@@ -552,10 +557,33 @@ func (tx *TxSpec) signers() []int {
 	return out
 }
 
+// Styler lets a property change CBOR head forms (never the data model) of the
+// parts of a transaction while it is being built: Aux before the auxiliary
+// data hash is taken, Body before the body is hashed and signed, Wits and Top
+// afterwards.
+type Styler struct {
+	Aux, Body, Wits, Top func(n *xcbor.Node)
+}
+
+// Encoded is a built transaction: the standalone form and its parts.
+type Encoded struct {
+	Raw, Body, Wits []byte
+	Aux             []byte // nil = none
+	FourElems       bool   // the standalone envelope has the is_valid element
+}
+
 // Encode returns the full transaction bytes and the body bytes.
 func (tx *TxSpec) Encode() (raw, body []byte) {
+	e := tx.EncodeAll()
+	return e.Raw, e.Body
+}
+
+func (tx *TxSpec) EncodeAll() Encoded {
 	bn, aux := tx.BodyNode()
-	body = bn.Encode()
+	if tx.Style != nil && tx.Style.Body != nil {
+		tx.Style.Body(bn)
+	}
+	body := bn.Encode()
 	h := hash256(body)
 	var vk []*xcbor.Node
 	for _, k := range tx.signers() {
@@ -607,18 +635,27 @@ func (tx *TxSpec) Encode() (raw, body []byte) {
 		plutus(3, 7)
 	}
 	wits := xcbor.M(wkv...)
+	if tx.Style != nil && tx.Style.Wits != nil {
+		tx.Style.Wits(wits)
+	}
+	witBytes := wits.Encode()
 	auxNode := xcbor.Null()
 	if aux != nil {
 		auxNode = xcbor.Raw(aux)
 	}
 	var top *xcbor.Node
+	four := false
 	switch {
 	case tx.Era < Alonzo:
-		top = xcbor.A(xcbor.Raw(body), wits, auxNode)
+		top = xcbor.A(xcbor.Raw(body), xcbor.Raw(witBytes), auxNode)
 	case tx.Era == Dijkstra && tx.ThreeElems:
-		top = xcbor.A(xcbor.Raw(body), wits, auxNode)
+		top = xcbor.A(xcbor.Raw(body), xcbor.Raw(witBytes), auxNode)
 	default:
-		top = xcbor.A(xcbor.Raw(body), wits, xcbor.Bool(!tx.Invalid), auxNode)
+		four = true
+		top = xcbor.A(xcbor.Raw(body), xcbor.Raw(witBytes), xcbor.Bool(!tx.Invalid), auxNode)
 	}
-	return top.Encode(), body
+	if tx.Style != nil && tx.Style.Top != nil {
+		tx.Style.Top(top)
+	}
+	return Encoded{Raw: top.Encode(), Body: body, Wits: witBytes, Aux: aux, FourElems: four}
 }
